@@ -531,3 +531,79 @@ Definition vlr_part (ex : list edim) (vl : list vlr) : Prop :=
   exists reg n, ex = reg ++ [unreg n] /\ 1 <= n /\ vlr_desc reg vl.
 Definition Inv2 (s : state) : Prop :=
   InvB s /\ (vlr_inv (st_extras s) (st_vlrs s) \/ vlr_part (st_extras s) (st_vlrs s)).
+
+(* ------------------------------------------------------------------------------------ *)
+(* several live objects (round 4)                                                        *)
+(* ------------------------------------------------------------------------------------ *)
+(* las[idx] (LasData.__getitem__ on an index list / index array / integer; a slice or a mask is the list of the positions
+   it selects): numpy's rule for one entry — i stands for i + n when -n <= i < 0; outside -n .. n-1 the whole selection is
+   refused with IndexError and nothing happens.  The new LasData gets a deep copy of the header (same point format, same
+   extra dimensions, same VLR list) and the selected records, in the order of the index. *)
+Definition norm_index (n i : Z) : option Z :=
+  if (0 <=? i) && (i <? n) then Some i
+  else if (- n <=? i) && (i <? 0) then Some (i + n)
+  else None.
+
+Fixpoint pick_recs (recs : list xrec) (idx : list Z) : option (list xrec) :=
+  match idx with
+  | [] => Some []
+  | i :: r => match norm_index (len recs) i with
+              | None => None
+              | Some j => match nth_error recs (Z.to_nat j), pick_recs recs r with
+                          | Some x, Some xs => Some (x :: xs)
+                          | _, _ => None
+                          end
+              end
+  end.
+
+Definition select (s : state) (idx : list Z) : result state :=
+  match pick_recs (st_recs s) idx with
+  | Some recs => Ok (mkSt (st_fmt s) (st_extras s) recs (st_vlrs s))
+  | None => Err EIndex
+  end.
+
+(* The LasData a history works on, and every other LasData that is alive: those the current one was obtained from and
+   those that were obtained from it.  Each is a value of its own: nothing done to the current one reaches them. *)
+Record world := mkW { w_cur : state; w_others : list state }.
+
+Inductive wop :=
+| WOp (o : op)                            (* an operation of the history, on the current LasData *)
+| WNew (o : op)                           (* the operation RETURNS a LasData (laspy.read of the written file, laspy.convert):
+                                             the history goes on with it, the one it was made from stays alive *)
+| WSelect (cont_new : bool) (idx : list Z) (* sel = las[idx]; the history goes on with sel (true) or with las (false) *)
+| WCopy.                                  (* another LasData with the same content (header deep-copied and points.copy(),
+                                             reader.read() a second time ...) *)
+
+Definition wstep (w : world) (o : wop) : world * result unit :=
+  match o with
+  | WOp o => (mkW (fst (step (w_cur w) o)) (w_others w), snd (step (w_cur w) o))
+  | WNew o => match snd (step (w_cur w) o) with
+              | Ok _ => (mkW (fst (step (w_cur w) o)) (w_others w ++ [w_cur w]), Ok tt)
+              | Err e => (w, Err e)
+              end
+  | WSelect b idx => match select (w_cur w) idx with
+                     | Ok s' => (if b then mkW s' (w_others w ++ [w_cur w]) else mkW (w_cur w) (w_others w ++ [s']), Ok tt)
+                     | Err e => (w, Err e)
+                     end
+  | WCopy => (mkW (w_cur w) (w_others w ++ [w_cur w]), Ok tt)
+  end.
+
+Definition wrun (w : world) (ops : list wop) : world := fold_left (fun w o => fst (wstep w o)) ops w.
+Fixpoint wtrace (w : world) (ops : list wop) : list (world * result unit) :=
+  match ops with
+  | [] => []
+  | o :: r => let wo := wstep w o in wo :: wtrace (fst wo) r
+  end.
+
+Definition wop_okb (w : world) (o : wop) : bool :=
+  match o with
+  | WOp o | WNew o => op_okb (w_cur w) o
+  | _ => true
+  end.
+Fixpoint wops_okb (w : world) (ops : list wop) : bool :=
+  match ops with
+  | [] => true
+  | o :: r => wop_okb w o && wops_okb (fst (wstep w o)) r
+  end.
+
+Definition WInv (w : world) : Prop := Inv2 (w_cur w) /\ Forall Inv2 (w_others w).
